@@ -242,9 +242,13 @@ def check_enums(ctx):
     fi = P.func("geonet.common_header.CommonHeader.decode_from_int")
     found = {}
     for node in ast.walk(fi.node):
-        if isinstance(node, ast.If) and isinstance(node.test, ast.Compare) and len(node.test.ops) == 1 \
-                and isinstance(node.test.ops[0], ast.Eq):
+        if isinstance(node, ast.If):
+            other = sem.eq_other(node.test, lambda e: (dotted(e) or "").startswith("HeaderType."))
+            if other is None:
+                continue
             d = dotted(node.test.comparators[0]) or ""
+            if not d.startswith("HeaderType."):
+                d = dotted(node.test.left) or ""
             if d.startswith("HeaderType."):
                 for st in node.body:
                     if isinstance(st, ast.Assign) and isinstance(st.value, ast.Call):
